@@ -17,8 +17,10 @@ The only job of the model is to say `ok <frame kind> | err | crash <site>` (+ by
 Every primitive reader is an instance of `take site guard need`: `guard` = the number the length check
 compares with (`if len(f.buf) < guard { panic(err) }`), `need` = the number of bytes actually sliced.
 `guard ≥ need` ⇒ the primitive cannot crash (Proofs/C05Frame.lean `take_noCrash`); the table of the
-primitives is `primTable`. `fx = false` is the code as it is, `fx = true` the code with
-props/C05.fix-2.diff (readInetAdressOnly guard) and props/C05.fix-3.diff (pk count) applied.
+primitives is `primTable`. The model describes the code AFTER the repairs of KF-C05-5
+(readInetAdressOnly checks `len(f.buf) < int(size)`), KF-C05-6/7 (parsePreparedMetadata rejects a negative
+partition-key count and one that the rest of the body cannot hold, before `make`) and KF-C05-8
+(readTypeInfo rejects a tuple / UDT element count that the rest of the body cannot hold, before `make`).
 
 Bytes are `List Nat` (one element per byte, every theorem holds for all lists of naturals).
 -/
@@ -27,20 +29,14 @@ namespace FrameCrash
 abbrev Bytes := List Nat
 
 inductive Site
-  | inetBody     -- readInetAdressOnly: `f.buf[:size]` / `f.buf[size:]` behind `len(f.buf) < 1`   (KNOWN)
-  | pkeysMake    -- parsePreparedMetadata: `make([]int, pkeyCount)` with a negative count          (KNOWN)
+  | inetBody     -- readInetAdressOnly: `f.buf[:size]` / `f.buf[size:]` behind `len(f.buf) < int(size)`
   | readByte | readInt | readShort | readUUID | stringBody | bytesBody | shortBytesBody | inetSize
   | fuel         -- model artefact
 deriving DecidableEq, Repr
 
-def Site.known : Site → Bool
-  | .inetBody | .pkeysMake => true
-  | _ => false
-
 /-- `<Go function>:<panic kind>` as printed by the harness -/
 def Site.label : Site → String
   | .inetBody => "readInetAdressOnly:slice"
-  | .pkeysMake => "parsePreparedMetadata:makeslice"
   | .readByte => "readByte:index"
   | .readInt => "readInt:index"
   | .readShort => "readShort:index"
@@ -65,6 +61,10 @@ inductive Res (α : Type)
 def Res.crashSite {α : Type} : Res α → Option Site
   | .crash s _ => some s
   | _ => none
+
+def Res.isErr {α : Type} : Res α → Bool
+  | .err _ => true
+  | _ => false
 
 def Res.allocated {α : Type} : Res α → Nat
   | .ok _ st => st.alloc
@@ -97,8 +97,8 @@ def take (site : Site) (guard need : Nat) : P Bytes := fun st =>
   else .ok (st.buf.take need) { st with buf := st.buf.drop need }
 
 /-- the fixed-size primitives of frame.go:1771-1937 as (name, guard, need); the variable-size ones
-(readString, readBytes, readShortBytes: guard = need = the size just read) and readInetAdressOnly's
-address (guard 1, need size ∈ {4,16}) are in the definitions below -/
+(readString, readBytes, readShortBytes, readInetAdressOnly's address: guard = need = the size just read)
+are in the definitions below -/
 def primTable : List (String × Nat × Nat) :=
   [("readByte", 1, 1), ("readInt", 4, 4), ("readShort", 2, 2), ("readUUID", 16, 16), ("readInetAdressOnly.size", 1, 1)]
 
@@ -117,17 +117,17 @@ def sourceFacts : List (String × String) := [
   ("readLongString", "g=[len(f.buf)<size]u=[f.buf[:size];f.buf[size:]]m=[]p=[error]"),
   ("readUUID", "g=[len(f.buf)<16]u=[f.buf[:16];f.buf[16:]]m=[]p=[error]"),
   ("readStringList", "g=[]u=[]m=[make([]string,size)]p=[]"),
-  ("readBytesInternal", "g=[len(f.buf)<size]u=[f.buf[:size];f.buf[size:]]m=[]p=[]"),
+  ("readBytesInternal", "g=[len(f.buf)<4;len(f.buf)<size]u=[f.buf[:size];f.buf[size:]]m=[]p=[]"),
   ("readBytes", "g=[]u=[]m=[]p=[error]"),
   ("readShortBytes", "g=[len(f.buf)<int(size)]u=[f.buf[:size];f.buf[size:]]m=[]p=[error]"),
-  ("readInetAdressOnly", "g=[len(f.buf)<1;len(f.buf)<1]u=[f.buf[0];f.buf[1:];f.buf[:size];f.buf[size:]]m=[make([]byte,size)]p=[error;error;error]"),
+  ("readInetAdressOnly", "g=[len(f.buf)<1;len(f.buf)<int(size)]u=[f.buf[0];f.buf[1:];f.buf[:size];f.buf[size:]]m=[make([]byte,size)]p=[error;error;error]"),
   ("readInet", "g=[]u=[]m=[]p=[]"),
   ("readConsistency", "g=[]u=[]m=[]p=[]"),
   ("readBytesMap", "g=[]u=[]m=[make(map[string][]byte,size)]p=[]"),
   ("readStringMultiMap", "g=[]u=[]m=[make(map[string][]string,size)]p=[]"),
   ("readErrorMap", "g=[]u=[]m=[make(ErrorMap)]p=[]"),
-  ("readTypeInfo", "g=[]u=[]m=[make([]TypeInfo,n);make([]UDTField,n)]p=[]"),
-  ("parsePreparedMetadata", "g=[meta.colCount<0;meta.colCount<1000]u=[]m=[make([]int,pkeyCount);make([]ColumnInfo,meta.colCount)]p=[error]"),
+  ("readTypeInfo", "g=[int(n)*2>len(f.buf);int(n)*4>len(f.buf)]u=[]m=[make([]TypeInfo,n);make([]UDTField,n)]p=[error;error]"),
+  ("parsePreparedMetadata", "g=[meta.colCount<0;pkeyCount<0||pkeyCount*2>len(f.buf);meta.colCount<1000]u=[]m=[make([]int,pkeyCount);make([]ColumnInfo,meta.colCount)]p=[error;error]"),
   ("parseResultMetadata", "g=[meta.colCount<0;meta.colCount<1000]u=[]m=[make([]ColumnInfo,meta.colCount)]p=[error]"),
   ("readCol", "g=[]u=[]m=[]p=[]"),
   ("parseResultRows", "g=[result.numRows<0]u=[]m=[]p=[error]"),
@@ -135,21 +135,10 @@ def sourceFacts : List (String × String) := [
   ("readFrame", "g=[head.length<0;head.length>maxFrameSize;cap(f.readBuffer)>=head.length]u=[f.readBuffer[:head.length]]m=[make([]byte,head.length)]p=[]"),
   ("parseFrame", "g=[]u=[]m=[]p=[r]")]
 
-/-- the entries of `sourceFacts` that props/C05.fix-{2,3,4,7,9}.diff change (fix-9 moves readTypeInfo's
-body into readTypeInfoDepth) -/
-def sourceFactsFixed : List (String × String) := [
-  ("readBytesInternal", "g=[len(f.buf)<4;len(f.buf)<size]u=[f.buf[:size];f.buf[size:]]m=[]p=[]"),
-  ("readInetAdressOnly", "g=[len(f.buf)<1;len(f.buf)<int(size)]u=[f.buf[0];f.buf[1:];f.buf[:size];f.buf[size:]]m=[make([]byte,size)]p=[error;error;error]"),
-  ("readTypeInfo", "g=[]u=[]m=[]p=[]"),
-  ("parsePreparedMetadata", "g=[meta.colCount<0;pkeyCount<0||pkeyCount*2>len(f.buf);meta.colCount<1000]u=[]m=[make([]int,pkeyCount);make([]ColumnInfo,meta.colCount)]p=[error;error]")]
-
-def sourceFact (fx : Bool) (name : String) : String :=
-  match (if fx then sourceFactsFixed.find? (fun p => p.1 == name) else none) with
+def sourceFact (name : String) : String :=
+  match sourceFacts.find? (fun p => p.1 == name) with
   | some p => p.2
-  | none =>
-    match sourceFacts.find? (fun p => p.1 == name) with
-    | some p => p.2
-    | none => "absent"
+  | none => "absent"
 
 /-- big-endian value -/
 def be (bs : Bytes) : Nat := bs.foldl (fun acc b => acc * 256 + b) 0
@@ -216,22 +205,22 @@ def readStringMultiMap : P Unit := do
   alloc (48 * size)
   loopN size (do let _ ← readString; readStringList)
 
-/-- readInetAdressOnly: the address is sliced behind `len(f.buf) < 1` (fixed: `< int(size)`) -/
-def readInetAdressOnly (fx : Bool) : P Unit := do
+/-- readInetAdressOnly: the address is sliced behind `len(f.buf) < int(size)` -/
+def readInetAdressOnly : P Unit := do
   let size ← readByte            -- `len(f.buf) < 1` then `f.buf[0]`
   if !(size == 4 || size == 16) then fail
   else do
-    let _ ← take .inetBody (if fx then size else 1) size
+    let _ ← take .inetBody size size
     alloc size
 
-def readInet (fx : Bool) : P Unit := do
-  readInetAdressOnly fx
+def readInet : P Unit := do
+  readInetAdressOnly
   let _ ← readInt
   pure ()
 
-def readErrorMap (fx : Bool) : P Unit := do
+def readErrorMap : P Unit := do
   let n ← readInt
-  loopN n.toNat (do readInetAdressOnly fx; let _ ← readShort; pure ())
+  loopN n.toNat (do readInetAdressOnly; let _ ← readShort; pure ())
 
 /-- the type tree a description is parsed to (TypeInfo): NativeType{typ} (custom classes and unknown
 ids included), CollectionType, TupleTypeInfo, UDTTypeInfo (field types) -/
@@ -256,14 +245,14 @@ def tiDepthL : List TI → Nat
 end
 
 
-/-- props/C05.fix-7.diff: `if int(n)*k > len(f.buf) { panic(error) }` before the allocation (every
-element description needs at least k bytes); absent from the unchanged code -/
-def guardCount (fx : Bool) (need : Nat) : P Unit := fun st =>
-  if fx && need > st.buf.length then .err st.alloc else .ok () st
+/-- `if int(n)*k > len(f.buf) { panic(error) }` before the allocation (every element description needs at
+least k bytes) -/
+def guardCount (need : Nat) : P Unit := fun st =>
+  if need > st.buf.length then .err st.alloc else .ok () st
 
 mutual
 /-- readTypeInfo -/
-def readTypeInfo (fx : Bool) : Nat → P TI
+def readTypeInfo : Nat → P TI
   | 0 => crashAt .fuel
   | f+1 => do
     let id ← readShort
@@ -277,54 +266,54 @@ def readTypeInfo (fx : Bool) : Nat → P TI
                 else pure id)
     if typ == 0x31 then do
       let n ← readShort
-      guardCount fx (2 * n)
+      guardCount (2 * n)
       alloc (16 * n)
-      let es ← typeLoop fx f false n
+      let es ← typeLoop f false n
       pure (.tuple es)
     else if typ == 0x30 then do
       let _ ← readString
       let _ ← readString
       let n ← readShort
-      guardCount fx (4 * n)
+      guardCount (4 * n)
       alloc (32 * n)
-      let fs ← typeLoop fx f true n
+      let fs ← typeLoop f true n
       pure (.udt fs)
     else if typ == 0x21 then do
-      let k ← readTypeInfo fx f
-      let v ← readTypeInfo fx f
+      let k ← readTypeInfo f
+      let v ← readTypeInfo f
       pure (.map k v)
     else if typ == 0x20 || typ == 0x22 then do
-      let e ← readTypeInfo fx f
+      let e ← readTypeInfo f
       pure (.list e)
     else pure (.simple typ)
 /-- the element loops of tuple (`named = false`) and UDT (`named = true`) descriptions -/
-def typeLoop (fx : Bool) : Nat → Bool → Nat → P (List TI)
+def typeLoop : Nat → Bool → Nat → P (List TI)
   | 0, _, _ => crashAt .fuel
   | f+1, named, n =>
     match n with
     | 0 => pure []
     | n+1 => do
       (if named then do let _ ← readString; pure () else pure ())
-      let t ← readTypeInfo fx f
-      let ts ← typeLoop fx f named n
+      let t ← readTypeInfo f
+      let ts ← typeLoop f named n
       pure (t :: ts)
 end
 
 /-- entry point with the fuel the proofs show sufficient: |unread bytes| + 1 -/
-def readTypeInfoTop (fx : Bool) : P TI := fun st => readTypeInfo fx (st.buf.length + 1) st
+def readTypeInfoTop : P TI := fun st => readTypeInfo (st.buf.length + 1) st
 
 /-- readCol -/
-def readCol (fx : Bool) (globalSpec : Bool) : P TI := do
+def readCol (globalSpec : Bool) : P TI := do
   (if !globalSpec then do let _ ← readString; let _ ← readString; pure () else pure ())
   let _ ← readString
-  readTypeInfoTop fx
+  readTypeInfoTop
 
 /-- the column loops of parseResultMetadata / parsePreparedMetadata; returns the columns reversed -/
-def colLoop (fx : Bool) (globalSpec : Bool) : Nat → List TI → P (List TI)
+def colLoop (globalSpec : Bool) : Nat → List TI → P (List TI)
   | 0, acc => pure acc
   | n+1, acc => do
-    let c ← readCol fx globalSpec
-    colLoop fx globalSpec n (c :: acc)
+    let c ← readCol globalSpec
+    colLoop globalSpec n (c :: acc)
 
 def bit (u : Nat) (k : Nat) : Bool := (u / 2 ^ k) % 2 == 1
 
@@ -333,7 +322,7 @@ structure Meta where
   colCount : Nat
 
 /-- shared tail of both metadata parsers (from the paging state on) -/
-def metaTail (fx : Bool) (flags : Nat) (colCount : Nat) : P Meta := do
+def metaTail (flags : Nat) (colCount : Nat) : P Meta := do
   (if bit flags 1 then do
       let p ← readBytes
       alloc (p.getD []).length
@@ -344,33 +333,33 @@ def metaTail (fx : Bool) (flags : Nat) (colCount : Nat) : P Meta := do
     (if bit flags 0 then do let _ ← readString; let _ ← readString; pure () else pure ())
     -- `make([]ColumnInfo, colCount)` below 1000 columns, append (amortised) otherwise
     (if colCount < 1000 then alloc (64 * colCount) else pure ())
-    let cols ← colLoop fx (bit flags 0) colCount []
+    let cols ← colLoop (bit flags 0) colCount []
     (if colCount < 1000 then pure () else alloc (128 * colCount))
     pure { cols := cols.reverse, colCount := colCount }
 
-def parseResultMetadata (fx : Bool) : P Meta := do
+def parseResultMetadata : P Meta := do
   let flags ← readIntU
   let colCount ← readInt
   if colCount < 0 then fail
-  else metaTail fx flags colCount.toNat
+  else metaTail flags colCount.toNat
 
-def parsePreparedMetadata (fx : Bool) (proto : Nat) : P Meta := do
+def parsePreparedMetadata (proto : Nat) : P Meta := do
   let flags ← readIntU
   let colCount ← readInt
   if colCount < 0 then fail
   else do
     (if proto ≥ 4 then do
         let pk ← readInt
-        if pk < 0 then (if fx then fail else crashAt .pkeysMake)
+        -- `if pkeyCount < 0 || pkeyCount*2 > len(f.buf) { panic(error) }` before the allocation
+        if pk < 0 then fail
         else do
-          -- fixed: `pkeyCount*2 > len(f.buf)` is an error before the allocation
           let st ← (fun st => Res.ok st st : P St)
-          if fx && 2 * pk.toNat > st.buf.length then fail
+          if 2 * pk.toNat > st.buf.length then fail
           else do
             alloc (8 * pk.toNat)
             loopN pk.toNat (do let _ ← readShort; pure ())
       else pure ())
-    metaTail fx flags colCount.toNat
+    metaTail flags colCount.toNat
 
 inductive Frame
   | simple (kind : String)
@@ -415,11 +404,11 @@ def parseResultSchemaChange (proto : Nat) : P Frame := do
       pure (.simple "schemaChangeAggregate")
     else fail
 
-def parseResultFrame (fx : Bool) (proto : Nat) : P Frame := do
+def parseResultFrame (proto : Nat) : P Frame := do
   let kind ← readInt
   if kind == 1 then pure (.simple "resultVoidFrame")
   else if kind == 2 then do
-    let m ← parseResultMetadata fx
+    let m ← parseResultMetadata
     let numRows ← readInt
     if numRows < 0 then fail else pure (.rows m numRows.toNat)
   else if kind == 3 then do
@@ -427,20 +416,20 @@ def parseResultFrame (fx : Bool) (proto : Nat) : P Frame := do
     pure (.simple "resultKeyspaceFrame")
   else if kind == 4 then do
     let _ ← readShortBytes
-    let _ ← parsePreparedMetadata fx proto
+    let _ ← parsePreparedMetadata proto
     if proto < 2 then pure (.simple "resultPreparedFrame")
     else do
-      let _ ← parseResultMetadata fx
+      let _ ← parseResultMetadata
       pure (.simple "resultPreparedFrame")
   else if kind == 5 then parseResultSchemaChange proto
   else fail
 
-def readFailureTail (fx : Bool) (proto : Nat) : P Unit := do
+def readFailureTail (proto : Nat) : P Unit := do
   let _ ← readShort; let _ ← readInt; let _ ← readInt
-  if proto > 4 then readErrorMap fx
+  if proto > 4 then readErrorMap
   else do let _ ← readInt; pure ()
 
-def parseErrorFrame (fx : Bool) (proto : Nat) : P Frame := do
+def parseErrorFrame (proto : Nat) : P Frame := do
   let code ← readInt
   let _ ← readString
   if code == 0x1000 then do
@@ -460,11 +449,11 @@ def parseErrorFrame (fx : Bool) (proto : Nat) : P Frame := do
     alloc id.length
     pure (.simple "RequestErrUnprepared")
   else if code == 0x1300 then do
-    readFailureTail fx proto
+    readFailureTail proto
     let _ ← readByte
     pure (.simple "RequestErrReadFailure")
   else if code == 0x1500 then do
-    readFailureTail fx proto
+    readFailureTail proto
     let _ ← readString
     pure (.simple "RequestErrWriteFailure")
   else if code == 0x1400 then do
@@ -479,39 +468,39 @@ def parseErrorFrame (fx : Bool) (proto : Nat) : P Frame := do
     pure (.simple "errorFrame")
   else fail
 
-def parseEventFrame (fx : Bool) (proto : Nat) : P Frame := do
+def parseEventFrame (proto : Nat) : P Frame := do
   let t ← readString
   if t == kTOPOLOGY_CHANGE then do
     let _ ← readString
-    readInet fx
+    readInet
     pure (.simple "topologyChangeEventFrame")
   else if t == kSTATUS_CHANGE then do
     let _ ← readString
-    readInet fx
+    readInet
     pure (.simple "statusChangeEventFrame")
   else if t == kSCHEMA_CHANGE then parseResultSchemaChange proto
   else fail
 
 /-- framer.parseFrame: `proto` is the framer's protocol version (newFramer masks it with 0x7F),
 `resp` the direction bit of the header's version byte, `flags` the header flags, `op` the opcode -/
-def parseFrameP (fx : Bool) (proto : Nat) (resp : Bool) (flags op : Nat) : P Frame := do
+def parseFrameP (proto : Nat) (resp : Bool) (flags op : Nat) : P Frame := do
   if !resp then fail
   else do
     (if bit flags 1 then readUUID else pure ())
     (if bit flags 3 then readStringList else pure ())
     (if bit flags 2 then readBytesMap else pure ())
-    if op == 0x00 then parseErrorFrame fx proto
+    if op == 0x00 then parseErrorFrame proto
     else if op == 0x02 then pure (.simple "readyFrame")
-    else if op == 0x08 then parseResultFrame fx proto
+    else if op == 0x08 then parseResultFrame proto
     else if op == 0x06 then do readStringMultiMap; pure (.simple "supportedFrame")
     else if op == 0x03 then do let _ ← readString; pure (.simple "authenticateFrame")
     else if op == 0x0E then do let _ ← readBytes; pure (.simple "authChallengeFrame")
     else if op == 0x10 then do let _ ← readBytes; pure (.simple "authSuccessFrame")
-    else if op == 0x0C then parseEventFrame fx proto
+    else if op == 0x0C then parseEventFrame proto
     else fail
 
-def parseFrame (fx : Bool) (proto : Nat) (resp : Bool) (flags op : Nat) (body : Bytes) : Res Frame :=
-  parseFrameP fx proto resp flags op { buf := body, alloc := 0 }
+def parseFrame (proto : Nat) (resp : Bool) (flags op : Nat) (body : Bytes) : Res Frame :=
+  parseFrameP proto resp flags op { buf := body, alloc := 0 }
 
 /-! ### recursion depth (goroutine stack)
 
@@ -526,9 +515,7 @@ the process). A stack overflow is fatal: no recover, the process exits (KF-C05-1
 def stackPerLevel : Nat := 336
 def deepStackLimit : Nat := 33554432
 
-/-- `fx`: with props/C05.fix-9.diff readTypeInfo refuses more than 128 nesting levels (an error) -/
-def deepOutcome (fx : Bool) (what : String) (depth : Nat) : String :=
-  if fx && what == "typeinfo" then "survived" else
+def deepOutcome (what : String) (depth : Nat) : String :=
   let fn := if what == "typeinfo" then "readTypeInfo" else if what == "gct" then "getCassandraType" else "parseClassNode"
   if depth * stackPerLevel ≥ deepStackLimit then "crash:" ++ fn ++ ":stackoverflow" else "survived"
 
